@@ -232,7 +232,7 @@ func worker(args []string) int {
 		}
 		if res.Skipped {
 			wo.Skipped++
-			wo.SkipReasons[trim(res.SkipReason, 80)]++
+			wo.SkipReasons[trim(res.SkipReason, 160)]++
 			continue
 		}
 		if res.NonTrivial {
